@@ -148,7 +148,6 @@ def sqNorm (r : K × K) : K := r.1 * r.1 + r.2 * r.2
 `iter_linear_fit` (the fitters raise first) -/
 def nanK : K := (zeroK : K) / zeroK
 
-def twoK : K := ((2 : Nat) : K)
 
 /-- mean square of the residuals: `np.mean(2 * residuals**2)` (a mean over `2N` numbers) in the
 unweighted branch, `np.sum(np.dot(w, residuals**2))` with `w = weights / sum(weights)` in the
